@@ -34,6 +34,9 @@ type DriverSpec struct {
 	FullPct   int    `json:"full_pct"`   // % of writes that are full-line
 	MaskPct   int    `json:"mask_pct"`   // % of writes that carry a dirty mask
 	IdlePct   int    `json:"idle_pct"`   // % of ticks in which the driver issues nothing
+	// RspStallPct: % of ticks (with a response waiting) in which the driver takes no response: a slow requester
+	// that back-pressures the unit above it.
+	RspStallPct int `json:"rsp_stall_pct,omitempty"`
 	// Destination: single port or interleaved over several.
 	Dsts       []string `json:"dsts"`
 	Interleave uint64   `json:"interleave"`
@@ -142,6 +145,10 @@ func (d *Driver) intn(n uint64) uint64 {
 
 func (m *driverMW) Tick() bool {
 	progress := false
+	if sp := m.d.Spec(); sp.RspStallPct > 0 && m.port().PeekIncoming() != nil && int(m.d.intn(100)) < sp.RspStallPct {
+		m.issue()
+		return true // a response is waiting: keep ticking
+	}
 	for i := 0; i < 4; i++ {
 		if !m.processRsp() {
 			break
